@@ -184,7 +184,7 @@ def prep_cli(ck, prop_file):
 
 def c18(ck):
     rng = random.Random(ck.seed)
-    quick = ck.tier == "quick"
+    quick = ck.quick
     model_ok, ok = prep_cli(ck, "C18.v")
     if not ok:
         return
@@ -350,7 +350,7 @@ def parse_json_stream(text):
 
 def c20(ck):
     rng = random.Random(ck.seed)
-    quick = ck.tier == "quick"
+    quick = ck.quick
     model_ok, ok = prep_cli(ck, "C20.v")
     if not ok:
         return
